@@ -7,11 +7,13 @@ run_passes() with per-operand RW info).  The driver
        `valid pre=<n> post=<n> pairs=<n> ins=<n> del=<n>`  |  `reject <where> <why>`  |  `unsupported <why>`.
 -/
 import AsmjitVerif.Model.RAIR
+import AsmjitVerif.Model.RAIdioms
 import AsmjitVerif.Gen.VexEvex
 import Driver.Common
 
 namespace Driver.C05
 open AsmjitVerif.RAIR
+open AsmjitVerif.RAIdioms (byteMask isMoveName isMemMoveName moveCap moveBytes sameRegZero sameRegKeep immZeroKeep classify Rule covers extendsLive regToMemLost)
 
 inductive Opd where
   | reg (name : String) (rtype size flags rmask wmask emask : Nat) (fixed : String) (esig : String)
@@ -155,9 +157,6 @@ def abiLoc (c : Ctx) (s : String) : Option Nat :=
 
 def flagLocs (mask : Nat) : List Nat := (List.range 24).filterMap (fun k => if mask.testBit k then some (flagBase + k) else none)
 
-/-- one bit per byte, like OpRWInfo's byte masks -/
-def byteMask (size : Nat) : Nat := 2 ^ (min size 64) - 1
-
 /-! ### translation of one instruction
 
   `twin` = the operand list of the instruction with the same tag in the program before RA (for the program before RA:
@@ -172,22 +171,6 @@ structure TI where
   mem : Bool := false
   bad : Option String := none
 
-def isMoveName (x86 : Bool) (n : String) : Bool :=
-  if x86 then
-    ["mov", "movaps", "movapd", "movups", "movupd", "movdqa", "movdqu", "vmovaps", "vmovapd", "vmovups", "vmovupd", "vmovdqa", "vmovdqu",
-     "vmovdqa32", "vmovdqa64", "vmovdqu8", "vmovdqu16", "vmovdqu32", "vmovdqu64", "kmovb", "kmovw", "kmovd", "kmovq", "movq", "vmovq", "movd", "vmovd"].contains n
-  else ["mov", "fmov"].contains n
-
-/-- moves that are exact copies only with a memory operand -/
-def isMemMoveName (x86 : Bool) (n : String) : Bool :=
-  if x86 then ["movss", "movsd", "vmovss", "vmovsd", "movzx"].contains n
-  else ["ldr", "str", "ldur", "stur"].contains n
-
-def moveCap (n : String) : Nat :=
-  if n == "kmovb" then 1 else if n == "kmovw" then 2
-  else if ["kmovd", "movd", "vmovd", "movss", "vmovss"].contains n then 4
-  else if ["kmovq", "movq", "vmovq", "movsd", "vmovsd"].contains n then 8 else 64
-
 /-- instruction names the rewriter may substitute (x86rapass.cpp rewrite(): reg->mem patched forms, VEX->EVEX) -/
 def nameEquiv (pre post : String) : Bool :=
   pre == post ||
@@ -196,18 +179,6 @@ def nameEquiv (pre post : String) : Bool :=
    ("vmovw", "movzx")].contains (pre, post) ||
   -- VEX -> EVEX renaming: only a pair the ISA database lists as the same operation (Gen/VexEvex.lean, regenerated on every run)
   AsmjitVerif.Gen.vexEvexPairs.contains (pre, post)
-
-/-- instructions whose result does not depend on the operands when all register operands are the same register -/
-def sameRegZero (n : String) : Bool :=
-  ["xor", "sub", "pxor", "xorps", "xorpd", "psubb", "psubw", "psubd", "psubq", "vpxor", "vxorps", "vxorpd", "vpxord", "vpxorq", "vpsubb", "vpsubw",
-   "vpsubd", "vpsubq", "pcmpeqb", "pcmpeqw", "pcmpeqd", "pcmpeqq", "vpcmpeqb", "vpcmpeqw", "vpcmpeqd", "vpcmpeqq", "kxorw", "kxorb", "kxord", "kxorq",
-   "eor"].contains n
-
-def sameRegKeep (n : String) : Bool :=
-  ["or", "and", "por", "pand", "orps", "orpd", "andps", "andpd", "vpor", "vpand", "vorps", "vorpd", "vandps", "vandpd", "vpord", "vporq", "vpandd",
-   "vpandq", "korw", "kandw", "korb", "kandb", "kord", "kandd", "korq", "kandq"].contains n
-
-def immZeroKeep (n : String) : Bool := ["add", "or", "xor", "sub", "rol", "ror", "sar", "shl", "shr"].contains n
 
 def regLoc (post : Bool) (name : String) : Option Nat := if post then physLoc name else virtLoc name
 
@@ -252,7 +223,7 @@ def addOpd (c : Ctx) (post : Bool) (t : TI) (own : Opd) (tw : Option Opd) (isTar
         let t := if memW then { t with writes := t.writes ++ [sl] } else t
         -- a memory operand cannot zero-extend: if the register form extends into live bytes of the virtual register the
         -- two forms are different functions (the key differs, so the pair is refused)
-        let lost := memW && (byteMask vs &&& remask &&& (rwmask ^^^ (2 ^ 64 - 1))) != 0
+        let lost := regToMemLost memW vs rwmask remask
         { t with key := t.key ++ [s!"r{rtype}/{rsize}/{rflags &&& 0x18b}/{if memW then rwmask ||| remask else 0}/{rfixed}/{resig}{if lost then "/memform-does-not-zero-extend" else ""}"] }
     | true, none, some sl =>
       -- inserted instruction addressing a stack slot: a location
@@ -509,17 +480,16 @@ def translate (c : Ctx) (post : Bool) (nodes : Array Node) (twinOf : Nat → Opt
       let t := match op0 with
         | none => t
         | some (l0, vs, wm, em) =>
-          let covers := (byteMask vs &&& ((wm ||| em) ^^^ (2 ^ 64 - 1))) == 0
-          let extendsLive := (byteMask vs &&& em) != 0
           let imm1 : Option String := match n.ops with | [_, .imm v] => some v | _ => none
           let srcSame : Bool := match n.ops with
             | [_, .reg bn brt bsz .., .reg cn crt csz ..] => bn == cn && brt == crt && bsz == csz
             | _ => sameRegs
-          if srcSame && sameRegZero n.name then { t with reads := if covers then [] else [l0], key := t.key ++ ["zero"] }
-          else if sameRegs && n.ops.length == 2 && sameRegKeep n.name && !extendsLive then { t with writes := t.writes.filter (· != l0), key := t.key ++ ["keep"] }
-          else if n.name == "or" && imm1 == some "-1" && covers then { t with reads := t.reads.filter (· != l0), key := t.key ++ ["ones"] }
-          else if imm1 == some "0" && immZeroKeep n.name && !extendsLive then { t with writes := t.writes.filter (· != l0), key := t.key ++ ["keep"] }
-          else t
+          -- the rule itself is `RAIdioms.classify` (Model/RAIdioms.lean), proved against a BitVec semantics in Props/C05Idioms.lean
+          match classify n.name n.ops.length sameRegs srcSame imm1 (covers vs wm em) (extendsLive vs em) with
+          | .zero readsRest => { t with reads := if readsRest then [l0] else [], key := t.key ++ ["zero"] }
+          | .keep => { t with writes := t.writes.filter (· != l0), key := t.key ++ ["keep"] }
+          | .ones => { t with reads := t.reads.filter (· != l0), key := t.key ++ ["ones"] }
+          | .none => t
       let t := if n.extra == "-" then t else
         match regLoc post n.extra with
         | some l => { t with reads := t.reads ++ [l] }
@@ -626,24 +596,24 @@ def translate (c : Ctx) (post : Bool) (nodes : Array Node) (twinOf : Nat → Opt
             | .reg an _ asz afl _ awm aem _ _, .reg bn _ bsz bfl _ _ _ _ _ =>
               if isMoveName c.x86 n.name && afl &&& 3 == 2 && bfl &&& 3 == 1 && (byteMask asz &&& ((awm ||| aem) ^^^ (2 ^ 64 - 1))) == 0 then
                 match regLoc post an, regLoc post bn with
-                | some d, some s => some (d, s, min cap (min asz bsz))
+                | some d, some s => some (d, s, moveBytes n.name (min asz bsz) none)
                 | _, _ => none
               else none
             | .reg an _ asz afl _ _ _ _ _, .mem msz _ mb mi md mfl =>
               if (isMoveName c.x86 n.name || isMemMoveName c.x86 n.name) && afl &&& 3 == 2 && mfl &&& 3 == 1 && mi == "-" && post then
                 match regLoc post an, slotLoc c mb md with
-                | some d, some s => some (d, s, min cap (if msz == 0 then asz else msz))
+                | some d, some s => some (d, s, moveBytes n.name asz (some msz))
                 | _, _ => none
               else if !c.x86 && isMemMoveName c.x86 n.name && afl &&& 3 == 1 && mfl &&& 3 == 2 && mfl &&& 0x2000 == 0 && mi == "-" && post then
                 -- AArch64 store `str reg, [sp, #off]`: register first, memory second
                 match slotLoc c mb md, regLoc post an with
-                | some d, some s => some (d, s, min cap (if msz == 0 then asz else msz))
+                | some d, some s => some (d, s, moveBytes n.name asz (some msz))
                 | _, _ => none
               else none
             | .mem msz _ mb mi md mfl, .reg bn _ bsz bfl _ _ _ _ _ =>
               if (isMoveName c.x86 n.name || (isMemMoveName c.x86 n.name && n.name != "movzx")) && bfl &&& 3 == 1 && mfl &&& 3 == 2 && mi == "-" && post then
                 match slotLoc c mb md, regLoc post bn with
-                | some d, some s => some (d, s, min cap (if msz == 0 then bsz else msz))
+                | some d, some s => some (d, s, moveBytes n.name bsz (some msz))
                 | _, _ => none
               else none
             | _, _ => none
@@ -1046,6 +1016,7 @@ structure Prep where
   post : Prog2
   aP : List Nat
   aQ : List Nat
+  r2m : Nat := 0
 
 def prepare (ts : List String) : Except String Prep :=
   match ts with
@@ -1098,7 +1069,15 @@ def prepare (ts : List String) : Except String Prep :=
           | some pv, some pl => .ok (some (pv, pl))
           | _, _ => .error s!"unsupported argument {s}"
         | _ => .error "args"
-      return { c, pre, post, aP := argPairs.map (·.1), aQ := argPairs.map (·.2) }
+      -- register operands of user instructions that the allocator replaced by the home slot
+      let r2m := postN.foldl (fun n nd =>
+        if nd.kind != 'I' || nd.tag == 0 then n else
+        match twinOf nd.tag with
+        | none => n
+        | some t => n + ((nd.ops.zip t.ops).filter fun (o, tw) => match o, tw with
+            | .mem _ _ mb mi md _, .reg .. => mi == "-" && (slotLoc c mb md).isSome
+            | _, _ => false).length) 0
+      return { c, pre, post, aP := argPairs.map (·.1), aQ := argPairs.map (·.2), r2m }
   | _ => .error "unsupported malformed dump"
 
 def oneLine (s : String) : String := String.ofList (s.toList.map fun ch => if ch == '\n' then ' ' else ch)
@@ -1152,7 +1131,14 @@ def process (line : String) : String :=
       let ins := post.tags.foldl (fun n t => if t == 0 then n + 1 else n) 0
       let del := (pre.tags.toList.filter fun t => t < 10000000 && !post.tags.contains t).length
       if validate c.vsz pre.insts post.insts aP aQ cert then
-        return s!"valid pre={pre.insts.size} post={post.insts.size} pairs={pairs} ins={ins} del={del}"
+        -- what the allocator did (for the evidence): inserted saves / reloads / register moves / swaps / jumps, register-to-memory substitutions
+        let cnt (f : Inst → Bool) : Nat := (List.range post.insts.size).foldl (fun n i => if post.tags.getD i 0 == 0 && f (post.insts.getD i default) then n + 1 else n) 0
+        let spills := cnt fun i => match i with | .move d s _ => d ≥ slotBase && s < slotBase | _ => false
+        let reloads := cnt fun i => match i with | .move d s _ => s ≥ slotBase && d < slotBase | _ => false
+        let moves := cnt fun i => match i with | .move d s _ => s < slotBase && d < slotBase | _ => false
+        let swaps := cnt fun i => match i with | .swap .. => true | _ => false
+        let jumps := cnt fun i => match i with | .jmp _ => true | _ => false
+        return s!"valid pre={pre.insts.size} post={post.insts.size} pairs={pairs} ins={ins} del={del} spill={spills} reload={reloads} move={moves} swap={swaps} jump={jumps} r2m={pr.r2m}"
       else
         -- locate the first entry that fails
         let bad := (List.range cert.size).findSome? fun q =>
